@@ -70,8 +70,9 @@ def revStructures : List QrStructure := Gen.revProofStructure.map qrOfGen
 /-- `Parameters.bTwoZk = 2^AttributeSize · 2^(ChallengeLength+ZkStat) · 2`. -/
 def revBTwoZk : Int := 2 ^ Gen.revAttributeSize * (2 ^ (Gen.revChallengeLength + Gen.revZkStat) * 2)
 
-/-- `0 < c < n` and `gcd(c, n) = 1`. -/
-def unitModN (c n : Int) : Bool := decide (0 < c) && decide (c < n) && decide (Int.gcd c n = 1)
+/-- `0 < c` and `gcd(c, n) = 1` (no upper bound: a refreshed prepared commitment may carry an
+    unreduced `C_u`). -/
+def unitModN (c n : Int) : Bool := decide (0 < c) && decide (Int.gcd c n = 1)
 
 /-- `proofStructure.verifyProofStructure`. -/
 def NonRevProof.structureOk (p : NonRevProof) : Bool :=
